@@ -6,7 +6,7 @@
 (* Every event is consumed; an event the specification does not allow prints   *)
 (*   <<"VIOL", position, {reasons}>>   and validation continues, so one run    *)
 (* reports every offending event.  Acceptance = all events consumed.           *)
-EXTENDS XorDecoder, IsaL, Json, IOUtils
+EXTENDS CodeOracles, Json, IOUtils
 
 Tr == ndJsonDeserialize(IOEnv.TRACE)
 VARIABLE l
@@ -20,15 +20,8 @@ MissingOf(ev, sup) == (0..(NN(ev) - 1)) \ sup
 IsXor(ev) == ev.be = 3 /\ HasTable(ev.k, ev.m, ev.hd)
 TabOf(ev) == TableOf(ev.k, ev.m, ev.hd)
 
-\* the tolerance the properties speak of (C01, C03, C19)
-Tolerated(ev, missing) ==
-   CASE ev.be = 3 -> IsXor(ev) /\ Cardinality(missing) < ev.hd
-     [] ev.be = 6 -> Cardinality(missing) <= ev.m
-     [] ev.be \in {4, 7} -> Cardinality(missing) <= ev.m
-     [] OTHER -> FALSE
-\* ISA-L: a refusal within |missing| <= m is allowed exactly when the survivor rows are singular
-RefusalExcused(ev, missing) ==
-   ev.be \in {4, 7} /\ ~SurvivorsInvertible(ev.be, ev.k, ev.m, missing)
+Tolerated(ev, missing) == TolBy(ev.be, ev.k, ev.m, ev.hd, missing)
+RefusalExcused(ev, missing) == ExcusedBy(ev.be, ev.k, ev.m, missing)
 
 Damaged(ev) == Has(ev, "dmg") /\ \E i \in 1..Len(ev.dmg) : ev.dmg[i] # 0
 \* fragments that pass validation (C20): undamaged ones; a payload flip is detectable only with CRC32
@@ -67,9 +60,7 @@ RecViol(ev) ==
    \cup (IF ev.l1 # ev.l0 THEN {"C16 reconstruct changed the live block count"} ELSE {})
 
 \* ---- fragments needed (C06) ----
-RsNeededOK(ev, R, X, Ns) ==
-   /\ NoDup(Ns) /\ Len(Ns) = ev.k
-   /\ \A q \in 1..Len(Ns) : Ns[q] \in 0..(NN(ev)-1) /\ Ns[q] \notin Range(R) /\ Ns[q] \notin Range(X)
+RsNeededOK(ev, R, X, Ns) == RsNeededOKBy(ev.k, ev.m, R, X, Ns)
 NeedViol(ev) ==
    LET R == ev.R  X == ev.X
        both == Range(R) \cup Range(X)
